@@ -109,4 +109,7 @@ def apply(fmt, text, plan_items):
         elif f == "read_error":
             read_plan["read_error_at"] = it["at"]
             facts["applied"].append(f)
+    if len(plan_items) != 1:
+        # a second fault may have removed or cut off the dangling reference / unsupported construct again
+        facts["must_raise"] = False
     return (join(fmt, toks) if changed else text), read_plan, facts
